@@ -249,3 +249,105 @@ func genArith(x *runner, n int) {
 		x.run(sc)
 	}
 }
+
+// ---- systematic sweeps at the arith level: every cut point, every altered byte, every segment-level
+// manipulation, every failure index, for small streams of real AES-GCM-HKDF / AES-CTR-HMAC objects ----
+
+func permutations(k int) [][]int {
+	if k == 0 {
+		return [][]int{{}}
+	}
+	var out [][]int
+	for _, p := range permutations(k - 1) {
+		for i := 0; i <= len(p); i++ {
+			q := append(append(append([]int{}, p[:i]...), k-1), p[i:]...)
+			out = append(out, q)
+		}
+	}
+	return out
+}
+
+func genSweep(x *runner, level int) {
+	r := vt.Rng(77)
+	specs := []keySpec{
+		{Alg: "GCM", KeySize: 16, Hkdf: "SHA256", Tag: 16, UserOff: 0},
+		{Alg: "CTR", KeySize: 16, Hkdf: "SHA1", TagAlg: "SHA256", Tag: 10, UserOff: 1},
+		{Alg: "GCM", KeySize: 32, Hkdf: "SHA512", Tag: 16, UserOff: 5},
+		{Alg: "CTR", KeySize: 32, Hkdf: "SHA256", TagAlg: "SHA512", Tag: 33, UserOff: 0},
+	}
+	if level == 0 {
+		specs = specs[:2]
+	}
+	for si, k := range specs {
+		k.MainKey = vt.Hex(vt.Bytes(r, k.KeySize))
+		h := 1 + k.KeySize + 7
+		k.C = k.UserOff + h + k.Tag + 1 + 2 + si // first segment 3.. bytes
+		p, f := k.C-k.Tag, k.C-k.Tag-k.UserOff-h
+		base := scenario{Lvl: "arith", P: p, T: k.Tag, Off: k.UserOff + h, Hdr: []int{1, k.KeySize, 7}, Keys: []keySpec{k}, Tag: "sweep"}
+		lens := []int{f + p + 1, 0, f, f + 2*p}
+		if level == 0 {
+			lens = lens[:1+si]
+		}
+		for _, n := range lens {
+			segs := nsegs(n, f, p)
+			l := h + n + segs*k.Tag
+			mk := func(sinkFail int, tam *op) scenario {
+				sc := base
+				sc.Seed, sc.MaxN, sc.SinkFail = r.Int63(), n+2, sinkFail
+				sc.Ops = []op{{Op: "NewWriter"}}
+				for _, c := range randChunks(r, n, f, p) {
+					sc.Ops = append(sc.Ops, op{Op: "Write", N: c})
+				}
+				sc.Ops = append(sc.Ops, op{Op: "Close"})
+				if tam != nil {
+					if tam.Pol == nil {
+						tam.Pol = randPolicy(r, k.C, true)
+					}
+					sc.Ops = append(sc.Ops, *tam, op{Op: "NewReader"}, op{Op: "Reads", Sizes: randReadSizes(r, f, p), Extra: 1, Max: 3*n + 12*segs + 20})
+				}
+				return sc
+			}
+			// every failure index of the underlying writer (header write, each segment, one beyond)
+			for sf := 1; sf <= segs+2; sf++ {
+				x.run(mk(sf, nil))
+			}
+			// every failure index of the underlying reader, for each fixed short-read policy, with and without data
+			for _, mode := range []string{"greedy", "half", "eager", "one"} {
+				calls := 0
+				{ // count the underlying calls of an undisturbed run with this policy
+					probe := mk(0, &op{Op: "Tamper", Pol: &policy{Mode: mode}})
+					c0 := x.srcCalls
+					x.run(probe)
+					calls = x.srcCalls - c0
+				}
+				for sf := 1; sf <= calls+1; sf++ {
+					if mode == "one" && level == 0 && sf%3 != 1 {
+						continue
+					}
+					x.run(mk(0, &op{Op: "Tamper", SrcFail: sf, FailK: (sf % 3), Pol: &policy{Mode: mode}}))
+				}
+			}
+			// every cut point and every altered byte
+			for at := 0; at < l; at++ {
+				x.run(mk(0, &op{Op: "Tamper", M: []manip{{Kind: "trunc", At: at}}}))
+				x.run(mk(0, &op{Op: "Tamper", M: []manip{{Kind: "alter", At: at}}}))
+			}
+			// segment-level manipulations
+			for i := 0; i < segs; i++ {
+				x.run(mk(0, &op{Op: "Tamper", M: []manip{{Kind: "drop", I: i}}}))
+				for j := 0; j <= segs; j++ {
+					x.run(mk(0, &op{Op: "Tamper", M: []manip{{Kind: "dup", I: i, J: j}}}))
+				}
+			}
+			if segs <= 4 {
+				for _, pm := range permutations(segs) {
+					x.run(mk(0, &op{Op: "Tamper", M: []manip{{Kind: "perm", Perm: pm}}}))
+				}
+			}
+			for _, a := range []int{1, 2, k.C - 1, k.C, k.C + 1} {
+				x.run(mk(0, &op{Op: "Tamper", M: []manip{{Kind: "append", N: a}}}))
+			}
+			x.run(mk(0, &op{Op: "Tamper", M: []manip{{Kind: "aad"}}}))
+		}
+	}
+}
